@@ -875,6 +875,19 @@ def runProof : List Cmd → List Seq → Except Err (List Seq)
       | .error e => .error e
       | .ok s => runProof rest (acc ++ [s])
 
+/-- `validate(is_eval=True)` exactly as the Python runs it (no `wellKinded` test): this is what the
+driver op `(proof …)` computes and what is compared with `proof_rec` -/
+def runProofRaw : List Cmd → List Seq → Except Err (List Seq)
+  | [], acc => .ok acc
+  | .assume t :: rest, acc => runProofRaw rest (acc ++ [⟨[t], t⟩])
+  | .step r cl sizes prems :: rest, acc =>
+    match lookupAll acc prems with
+    | none => .error .index
+    | some ps =>
+      match evalRule r cl sizes ps with
+      | .error e => .error e
+      | .ok s => runProofRaw rest (acc ++ [s])
+
 /-- the formulas assumed by a proof -/
 def assumptions : List Cmd → List Tm
   | [] => []
